@@ -72,11 +72,21 @@ class Prop(PropBase):
                         if "q" in arrange or "n" in arrange:
                             arrange = ["s", "a"]
                     yield {"op": "call", "ufunc": name, "method": "__call__", "cls": cls, "arr": arrange, "out": out,
-                           "dtype": rng.choice(["f8", "f4", "i8"] if REQ[cls] is None else
+                           "dtype": rng.choice(["f8", "f4", "i8", "i2", "i2"] if REQ[cls] is None else
                                                (["f8", "f4"] if REQ[cls][0] == "float64" else ["c16", "c8"])),
-                           "dask": dask, "where": rng.random() < 0.35,
+                           "dask": dask, "where": rng.random() < 0.35, "nidx": rng.choice([0, 1, 0, 1, rng.randrange(100)]),
                            # the Quantity operand: physical unit, or a *scaled* dimensionless one (value != the number it stands for)
                            "q": rng.choice(["m", "percent", "ratio", "percent_arr", "one"])}
+        # scalar operands of every kind with the common arithmetic ufuncs, on data types whose promotion they can change
+        k = 0
+        for name in ("power", "multiply", "add", "subtract", "true_divide", "minimum", "floor_divide"):
+            if name not in ufs:
+                continue
+            for nidx in range(15):
+                k += 1
+                yield {"op": "call", "ufunc": name, "method": "__call__", "cls": ["Signal", "RadioSignal"][k % 2],
+                       "arr": ["s", "n"] if (k // 2) % 3 else ["n", "s"], "out": "none", "dtype": ["i2", "f4", "i8", "f8"][k % 4],
+                       "dask": False, "where": False, "nidx": nidx, "q": "m"}
         for m in ("reduce", "accumulate", "reduceat", "outer", "at"):
             for name in ("add", "multiply", "maximum", "logical_and"):
                 for cls in (CLASSES if not quick else rng.sample(CLASSES, 3)):
@@ -102,7 +112,9 @@ class Prop(PropBase):
     def _mk(self, cls, dtype, idx, dask, shape_n=2):
         pb, np, u = self.pb, self.np, self.u
         shape = (4,) + sigs.sample_shape(cls, shape_n)
-        base = (np.arange(int(np.prod(shape))).reshape(shape) % 5 + 1 + idx).astype({"f8": "f8", "f4": "f4", "i8": "i8", "c16": "c16", "c8": "c8"}[dtype])
+        base = (np.arange(int(np.prod(shape))).reshape(shape) % 5 + 1 + idx).astype({"f8": "f8", "f4": "f4", "i8": "i8", "i2": "i2", "c16": "c16", "c8": "c8"}[dtype])
+        if dtype == "i2":
+            base = base * 50          # squares no longer fit 16 bits: the result type matters
         if dtype in ("c16", "c8"):
             base = base + 1j * (base.real % 3)
         data = self.da.from_array(base, chunks=(2,) + shape[1:]) if dask else base
@@ -194,15 +206,15 @@ class Prop(PropBase):
                 nsig += 1
             elif a == "a":
                 shape = (4,) + sigs.sample_shape(case["cls"], 2)
-                ops.append(np.full(shape, 2, dtype="f8" if case["dtype"] != "i8" else "i8"))
+                ops.append(np.full(shape, 2, dtype="f8" if case["dtype"] not in ("i8", "i2") else case["dtype"]))
                 desc.append("o")
             elif a == "k":
                 ops.append(2)
                 desc.append("o")
             elif a == "n":
-                pool = [np.True_, np.False_, np.float32(2), np.int8(3), np.uint16(2), np.complex64(2), np.array(2.0), np.array(True),
+                pool = [2.0, np.float64(2), np.True_, np.False_, np.float32(2), np.int8(3), np.uint16(2), np.complex64(2), np.array(2.0), np.array(True),
                         True, 2.5, np.float64(0.5), np.int64(2), np.longdouble(2)]
-                ops.append(pool[(len(case["ufunc"]) + len(case["cls"]) + int(case.get("where", False)) + len(desc)) % len(pool)])
+                ops.append(pool[case.get("nidx", len(case["ufunc"]) + len(case["cls"])) % len(pool)])
                 desc.append("o")
             elif a == "q":
                 qk = case.get("q", "m")
@@ -323,7 +335,11 @@ class Prop(PropBase):
             if method != "at" and k < len(rr) and not isinstance(raw_res, Exception):
                 ref = np.asarray(rr[k])
                 unit_of = lambda v: str(v.unit) if isinstance(v, u.Quantity) else None
-                it["values"] = bool(unit_of(getattr(yy, "data", yy)) == unit_of(rr[k]) and val.shape == ref.shape and np.array_equal(val.astype(np.result_type(val, ref)),
+                # same values AND the same result type as the operation on the bare arrays, unless the wrapping class has to cast
+                rcls = type(yy).__name__ if isinstance(yy, pb.Signal) else None
+                must_cast = rcls is not None and REQ[rcls] is not None and str(ref.dtype) not in REQ[rcls]
+                it["dtype_same"] = bool(must_cast or val.dtype == ref.dtype)
+                it["values"] = bool(it["dtype_same"] and unit_of(getattr(yy, "data", yy)) == unit_of(rr[k]) and val.shape == ref.shape and np.array_equal(val.astype(np.result_type(val, ref)),
                                                                                 ref.astype(np.result_type(val, ref)), equal_nan=True))
             items.append(it)
         res["items"] = items
